@@ -252,6 +252,15 @@ func Generate(seed uint64, profile string) *Project {
 		}
 	}
 
+	// (swarm, order profile, own stream) a controller declared in a MODEL package: whether it is part of the API
+	// depends on the globs alone (a package that is only loaded on demand, for its types, contributes none)
+	if or := Stream(seed, "projgen/outside-controller/"+profile, 0); profile == "order" && len(g.mdlPkgs) > 0 && or.Chance(1, 3) {
+		pkg := Pick(or, g.mdlPkgs)
+		x := Controller{Name: "CtlM", Pkg: pkg, File: "ctlm_f0.go", HasRoute: true, Route: "/outside"}
+		x.Methods = []Method{{Name: "MIndex", File: x.File, Verb: "GET", Route: "/m-index", Ret: "error"}}
+		p.Controllers = append(p.Controllers, x)
+	}
+
 	g.fixOverlaps()
 
 	// enforce only if ground truth says every route is secured
@@ -432,7 +441,7 @@ func (g *genState) field(pkg string, idx int, depth int) Field {
 	if f.Type.Kind == "prim" && !f.Type.Slice {
 		switch {
 		case f.Type.Prim == "string" && g.r.Chance(1, 3):
-			f.Validate = Pick(g.r, []string{"required", "min=1,max=20", "omitempty,max=40", "required,sim_probe"})
+			f.Validate = Pick(g.r, []string{"required", "min=1,max=20", "omitempty,max=40", "required,sim_probe", "oneof=north south east"})
 		case strings.Contains(f.Type.Prim, "int") && g.r.Chance(1, 4):
 			f.Validate = Pick(g.r, []string{"gte=0", "lte=100", "gte=1,lte=9"})
 		}
@@ -565,13 +574,13 @@ func validateFor(r *Rand, t TypeRef) string {
 	switch {
 	case t.Prim == "string":
 		// sim_probe is the custom validator the simulator registers on every engine (a yield point)
-		return Pick(r, []string{"", "", "required", "min=2", "max=8", "required,min=1,max=12", "sim_probe", "required,sim_probe"})
+		return Pick(r, []string{"", "", "required", "min=2", "max=8", "required,min=1,max=12", "sim_probe", "required,sim_probe", "oneof=red green blue", "required,oneof=ab cd"})
 	case t.Prim == "bool":
 		return ""
 	case strings.HasPrefix(t.Prim, "float"):
 		return Pick(r, []string{"", "", "gte=0", "lte=1000"})
 	default:
-		return Pick(r, []string{"", "", "gte=1", "lte=100", "required,gte=2,lte=50"})
+		return Pick(r, []string{"", "", "gte=1", "lte=100", "required,gte=2,lte=50", "oneof=3 5 8"})
 	}
 }
 
@@ -700,11 +709,15 @@ func (g *genState) method(c *Controller, idx int, file string) Method {
 		switch r.Intn(4) {
 		case 0, 1:
 			if st, ok := g.pickNamed(c.Pkg, "struct"); ok {
-				switch r.Intn(4) {
+				switch r.Intn(5) {
 				case 0:
 					st.Ptr = true
 				case 1:
 					st.Slice = true
+				case 2:
+					// maps only in the order profile: the routes file gleece emits for a map-typed body or
+					// result does not compile (invalid import alias "ResponseNmap[string]T"), which is C09's subject
+					st.Map = g.profile == "order"
 				}
 				p := Param{Loc: "body", GoName: "payload", Type: st}
 				if st.Ptr && r.Chance(1, 2) {
@@ -767,6 +780,9 @@ func (g *genState) method(c *Controller, idx int, file string) Method {
 			m.RetType = Pick(r, aliasOfAlias)
 		case k == 0:
 			m.RetType = TypeRef{Kind: "prim", Prim: Pick(r, []string{"string", "int", "bool", "float64"})}
+			if r.Chance(1, 4) {
+				m.RetType.Map = g.profile == "order"
+			}
 		case k == 1:
 			if e, ok := g.pickNamed(c.Pkg, "enum"); ok {
 				m.RetType = e
@@ -775,11 +791,13 @@ func (g *genState) method(c *Controller, idx int, file string) Method {
 			fallthrough
 		default:
 			if st, ok := g.pickNamed(c.Pkg, "struct"); ok {
-				switch r.Intn(4) {
+				switch r.Intn(5) {
 				case 0:
 					st.Ptr = true
 				case 1:
 					st.Slice = true
+				case 2:
+					st.Map = g.profile == "order"
 				}
 				m.RetType = st
 			} else {
